@@ -247,6 +247,9 @@ CLAIMS['C07']['text'] += (' Across exchanges (Proofs/InvalProofs.v): C07_exchang
                           'understood request with that key ends in the 504 of only-if-cached or logs an origin call with exactly that request). C07_source_same_origin: sameOrigin and defaultPort regenerated from internal/helpers.go.')
 for _pid in ('C11', 'C13'):
     CLAIMS[_pid]['text'] += ' %s_source_saturating_add: saturatingAdd regenerated from internal/freshness.go and proved equal to the model\'s on non-negative durations.' % _pid
+for _pid in ('C05', 'C08'):
+    CLAIMS[_pid]['text'] += (' %s_source_header_sets: hopByHopHeaders, removeHopByHopHeaders and updateStoredHeaders are re-derived from internal/helpers.go by translate/maps.go before every build '
+                             'and proved equal to hop_by_hop_headers, remove_hop_by_hop, update_stored_headers (Proofs/TieHeaderSets.v).' % _pid)
 for _pid in ('C07', 'C19'):
     CLAIMS[_pid]['text'] += (' %s_source_invalidation: InvalidateCache and invalidateLocationHeaders (which keys are deleted, in which order, after which reads of the store, none twice) '
                              'are re-derived from internal/cacheinvalidator.go by translate/inval.go before every build and proved equal up to peq to invalidate_cache (Proofs/TieInval.v).' % _pid)
